@@ -188,6 +188,10 @@ static void on_stuck(void) {
     finish_line("STUCK"); fflush(stdout); send_trace(1); _exit(0);
 }
 
+/* invalid use of a synchronisation object (lock / wait on a destroyed object, destroy of a locked mutex or of a condition with waiters,
+ * unlock by a non-owner): reported like a crash, with the case line and the schedule so far flushed (the scheduler would _exit(6) next) */
+static void on_fatal(const char* what) { printf("S %d 0 ", zv_self()); print_state(); putchar('\n');   /* the step in progress, for the replay */
+    printf("O invalid use of a synchronisation object: %s\n", what); g_oracle_bad = 1; finish_line("CRASH"); fflush(stdout); send_trace(2); _exit(0); }
 static void on_crash(int sig) { printf("O crash: signal %d\n", sig); g_oracle_bad = 1; finish_line("CRASH"); fflush(stdout); send_trace(2); _exit(0); }
 
 /* ---------- jobs and clients ---------- */
@@ -261,7 +265,7 @@ static void run_case(void) {   /* in the forked child */
     zp.sched_len = C.sched_len; memcpy(zp.sched_t, C.sched_t, sizeof(int) * (size_t)C.sched_len); memcpy(zp.sched_w, C.sched_w, sizeof(int) * (size_t)C.sched_len);
     zp.policy = C.policy ? ZV_POLICY_NOPREEMPT : ZV_POLICY_RANDOM; zp.seed = C.seed; zp.stay_pct = C.stay;
     zp.first_worker_tid = C.K; zp.on_step = on_step; zp.on_stuck = on_stuck;
-    zp.fault_enable = 1; zp.fault_pct = C.fault;
+    zp.fault_enable = 1; zp.fault_pct = C.fault; zp.on_fatal = on_fatal;
     {   /* all threads of a run on one CPU: the baton hand-over is then a plain context switch (no cross-CPU wake-up) */
         cpu_set_t set; long ncpu = sysconf(_SC_NPROCESSORS_ONLN); CPU_ZERO(&set); CPU_SET((int)((unsigned long)getppid() % (unsigned long)(ncpu > 0 ? ncpu : 1)), &set);
         sched_setaffinity(0, sizeof set, &set);
